@@ -10,6 +10,7 @@ class C10(TieCheck):
     pid = "C10"
     area = "Pattern"
     props = "Props_C10.v"
+    extra_props = [("Compose", "Props_Compose.v")]
     harness = "c10"
     shards = 32
     extra_trust = [
